@@ -67,13 +67,29 @@ def ign_all(xs):
 def bopd(o):
     return Boolean(np.array(o['vals'], dtype=bool).reshape(o['shape']), mk_mask(o['mask'], o['shape']))
 
+def padded(o, n):
+    """a Polynomial operand (coefficients in decreasing order) zero-padded at the front to n coefficients"""
+    k = o['item'][0]
+    if k == n:
+        return o
+    v = o['vals']
+    rows = [[0] * (n - k) + list(v[i * k:(i + 1) * k]) for i in range(len(v) // k)]
+    return dict(o, item=[n], vals=[x for r in rows for x in r])
+
+def poly_pair(a, b):
+    """Polynomials of different order are compared after zero-padding the lower-order one"""
+    if a is not None and b is not None and a.get('cls') == 'Polynomial' and b.get('cls') == 'Polynomial':
+        n = max(a['item'][0], b['item'][0])
+        return padded(a, n), padded(b, n)
+    return a, b
+
 def nopd(o, src=None):
     """numeric operand with item shape (`item` = numerator axes followed by `drank` denominator axes).
     With o['share'] and a source object `src` of the same shape/mask, the operand is DERIVED from it:
       'ctor'  -> built with src's own mask object (cls(values, mask=src.mask): one mask array, two objects)
       'arith' -> result of src + delta (arithmetic results reuse the operand's mask array)
     so that representation-identity shortcuts in the comparisons see realistic provenance."""
-    cls = CLASSES[o['cls']]
+    cls = polymath.Polynomial if o['cls'] == 'Polynomial' else CLASSES[o['cls']]
     vals = np.array(o['vals'], dtype=o.get('dtype', 'int64')).reshape(list(o['shape']) + list(o['item']))
     kw = {'drank': o['drank']} if o.get('drank') else {}
     share = o.get('share')
@@ -128,6 +144,12 @@ def apply_op(case, a, b):
         return getattr(a, op)(b, builtins=case.get('builtins', False))
     if op == 'strict':
         return STRICT[case['sym']](a, b)
+    if op == 'istrict':
+        # in-place form: the LEFT operand object itself is updated and returned
+        if case['sym'] == 'and': a &= b
+        elif case['sym'] == 'or': a |= b
+        else: a ^= b
+        return a
     if op == 'not':
         return ~a if case.get('form') == 'invert' else a.logical_not()
     if op == 'red':
@@ -155,7 +177,7 @@ def apply_op(case, a, b):
     raise KeyError(op)
 
 
-BOOL_OPS = ('tvl_and', 'tvl_or', 'strict', 'not', 'red')
+BOOL_OPS = ('tvl_and', 'tvl_or', 'strict', 'istrict', 'not', 'red')
 
 
 def build(case, which, src=None):
@@ -191,14 +213,21 @@ def one_obs(case, thunk):
 def seq_steps(case):
     """the steps of a history as stand-alone cases (operands substituted)"""
     res = []
+    cur = list(case['opds'])            # abstract state of the operand objects (in-place steps update it)
     for st in case['steps']:
         c = dict(st)
-        c['a'] = case['opds'][st['a']]
+        c['a'] = cur[st['a']]
         if st.get('b') is not None:
-            c['b'] = case['opds'][st['b']]
+            c['b'] = cur[st['b']]
         if c['op'] in ('eq', 'ne', 'tvl_eq', 'tvl_ne'):
             c['incompatible'] = np_bcast(c['a']['shape'], c['b']['shape']) is None
         res.append(c)
+        if c['op'] == 'istrict':
+            exp = expect(c)
+            if isinstance(exp, list):       # the left operand now holds the strict result
+                t3s = exp[1]
+                cur[st['a']] = {'shape': list(exp[0]), 'vals': [x == T for x in t3s],
+                                'mask': [x == M for x in t3s] if exp[0] else ('T' if t3s[0] == M else 'F')}
     return res
 
 
@@ -231,13 +260,15 @@ def item_rows(o):
 def expect(case):
     """table-driven reference: canonical expected observation, or None where the property says nothing"""
     op = case['op']
-    if op in ('tvl_and', 'tvl_or', 'strict'):
+    if op in ('tvl_and', 'tvl_or', 'strict', 'istrict'):
         a, b = case['a'], case['b']
         out = np_bcast(a['shape'], b['shape'])
         if out is None:
             return 'ValueError'
         xa, xb = bc(opd_t3(a), a['shape'], out), bc(opd_t3(b), b['shape'], out)
         f = kand if op == 'tvl_and' else kor if op == 'tvl_or' else (lambda x, y: strict(PYOP[case['sym']], x, y))
+        if op == 'istrict' and out != list(a['shape']):
+            return None          # does not fit into the left operand: not generated
         return [out, [f(x, y) for x, y in zip(xa, xb)]]
     if op == 'not':
         return [case['a']['shape'], [M if x == M else (F if x == T else T) for x in opd_t3(case['a'])]]
@@ -263,7 +294,7 @@ def expect(case):
             if a['shape'] or t3[0] == M:      # any shape other than (), even (1,) or (1,1): any()/all() is required
                 return 'ValueError'
             return t3[0] == T
-        a, b = case['a'], case['b']
+        a, b = poly_pair(case['a'], case['b'])
         out = np_bcast(a['shape'], b['shape'])
         kind = case['src'] if op == 'bool' else op
         if out is None or a['item'] != b['item']:
@@ -332,7 +363,7 @@ def request(case):
         return ['c14', 'seq'] + [r[1:] for r in subs]
     if op in ('tvl_and', 'tvl_or'):
         return ['c14', op, b_sx(case['a']), b_sx(case['b'])]
-    if op == 'strict':
+    if op in ('strict', 'istrict'):       # the in-place form must produce what the direct form produces
         return ['c14', 'strict', case['sym'], b_sx(case['a']), b_sx(case['b'])]
     if op == 'not':
         return ['c14', 'not', b_sx(case['a'])]
@@ -340,6 +371,7 @@ def request(case):
         return ['c14', 'red', case['red'], b_sx(case['a']), norm_axes(case['axis'], len(case['a']['shape']))]
     if op in ('eq', 'ne'):
         a, b = (case['b'], case['a']) if case.get('swap') else (case['a'], case['b'])
+        a, b = poly_pair(a, b)
         return ['c14', op, n_sx(a, True), n_sx(b, True)]
     if op in ('tvl_eq', 'tvl_ne'):
         if case['a']['item'] != case['b']['item']:
@@ -515,6 +547,21 @@ def gen_cases(rng, tier):
                 for op in ('eq', 'ne'):
                     cases.append(mk({'op': op, 'a': oa, 'b': ob, 'incompatible': True}))
                 cases.append(mk({'op': 'bool', 'src': rng.choice(['eq', 'ne']), 'a': oa, 'b': ob}))
+        # Polynomials of different order: `==` pads the lower-order operand with zero coefficients, masks as for every class
+        for sa, sb in SHAPE_PAIRS:
+            na, nb = rng.choice([(1, 3), (3, 1), (2, 3), (3, 2), (2, 2), (1, 2), (4, 2)])
+            oa, ob = rand_nopd(rng, sa, 'Polynomial', (na,)), rand_nopd(rng, sb, 'Polynomial', (nb,))
+            if rng.random() < 0.5 and na != nb and np_bcast(sa, sb) is not None:
+                # equal after padding: the lower-order operand's coefficients are the other's tail, leading ones zero
+                hi, lo = (oa, ob) if na > nb else (ob, oa)
+                k, n = lo['item'][0], hi['item'][0]
+                nlo = int(np.prod(lo['shape'], dtype=int))
+                tail = [rng.randint(-1, 1) for _ in range(k)]
+                lo['vals'] = tail * nlo
+                hi['vals'] = ([0] * (n - k) + tail) * int(np.prod(hi['shape'], dtype=int))
+            for op in ('eq', 'ne'):
+                cases.append(mk({'op': op, 'a': oa, 'b': ob, 'incompatible': np_bcast(sa, sb) is None}))
+            cases.append(mk({'op': 'bool', 'src': rng.choice(['eq', 'ne']), 'a': oa, 'b': ob}))
         # operands DERIVED from one another (shared mask object, different values underneath)
         for sa in ([3], [2, 2], [1, 3], [4], [2, 1, 2], []):
             for cls, item in (('Scalar', ()), ('Vector', (2,)), ('Matrix', (2, 2))):
@@ -542,6 +589,13 @@ def gen_cases(rng, tier):
         steps = []
         for _k in range(rng.randint(4, 8)):
             a, b = rng.randrange(3), rng.randrange(3)
+            if flavour == 'boolean' and rng.random() < 0.25 and _k > 0:
+                # in-place &=, |=, ^= on an operand that earlier steps have already queried (warm caches); the right
+                # operand must fit into the left one
+                a = rng.randrange(2)
+                b = rng.choice([x for x in range(3) if np_bcast(shapes[a], shapes[x]) == list(shapes[a])])
+                steps.append({'op': 'istrict', 'sym': rng.choice(list(STRICT)), 'a': a, 'b': b})
+                continue
             if flavour == 'boolean':
                 st = rng.choice([{'op': 'tvl_and'}, {'op': 'tvl_or'}, {'op': 'strict', 'sym': rng.choice(list(STRICT))},
                                  {'op': 'not', 'form': 'invert'},
